@@ -248,6 +248,55 @@ func rmScenario(name string) (string, string) {
 		return time.Since(t0)
 	}
 	switch {
+	case strings.HasPrefix(name, "flood"):
+		// nothing listens and several goroutines keep telling while the backlog is being failed: every
+		// message must be reported as a dead letter exactly once — none missing, none twice
+		const senders, per = 4, 25000
+		var wg sync.WaitGroup
+		for g := 0; g < senders; g++ {
+			wg.Add(1)
+			go func(g int) {
+				defer wg.Done()
+				for i := 0; i < per; i++ {
+					tell(int64(g*per + i))
+					if i%512 == 511 {
+						time.Sleep(200 * time.Microsecond) // keep telling while earlier backlogs are being failed
+					}
+				}
+			}(g)
+		}
+		wg.Wait()
+		last, stable := -1, 0
+		for w := time.Now().Add(8 * time.Second); time.Now().Before(w) && stable < 10; {
+			time.Sleep(30 * time.Millisecond)
+			if n := len(lg.deadSeqs()); n == last {
+				stable++
+			} else {
+				last, stable = n, 0
+			}
+		}
+		seen := map[int64]int{}
+		for _, q := range lg.deadSeqs() {
+			seen[q]++
+		}
+		missing, twice, firstMissing, firstTwice := 0, 0, int64(-1), int64(-1)
+		for q := int64(0); q < senders*per; q++ {
+			switch n := seen[q]; {
+			case n == 0:
+				if missing++; firstMissing < 0 {
+					firstMissing = q
+				}
+			case n > 1:
+				if twice++; firstTwice < 0 {
+					firstTwice = q
+				}
+			}
+		}
+		rmDetail = fmt.Sprintf("dead=%d missing=%d twice=%d", len(lg.deadSeqs()), missing, twice)
+		if missing > 0 || twice > 0 {
+			return fmt.Sprintf("DEAD-LETTER: %d goroutines told %d messages to an unreachable peer (ReconnectLimit=%d): %d never reported as dead letter (first #%d), %d reported more than once (first #%d)", senders, senders*per, limit, missing, firstMissing, twice, firstTwice), ""
+		}
+		return "", ""
 	case strings.HasPrefix(name, "refused"):
 		// nothing listens: every message must end as exactly one dead letter; the next one is attempted normally
 		var worst time.Duration
@@ -400,7 +449,7 @@ func (e *remoteEngine) Exec(line string) (string, string) {
 
 func (e *remoteEngine) Generate(c *Ctx) {
 	c.Guard = true // a fatal runtime error in the real code leaves the op in pending.txt
-	for _, sc := range []string{"refused", "refused-limit0", "recover", "cut-mid", "cut-prefix", "cut-mid-limit0", "stall"} {
+	for _, sc := range []string{"refused", "refused-limit0", "recover", "cut-mid", "cut-prefix", "cut-mid-limit0", "stall", "flood-limit0", "flood"} {
 		c.Case("rm " + sc)
 		c.R.Nontrivial()
 		c.R.Hit("rm:" + sc)
